@@ -9,6 +9,8 @@ CONSTANTS
   HandlerSeqs <- B_HSeqs
   UpProgs <- B_UpProgs
   CRProg <- B_CR
+  Forms = {"fresh"}
+  Colls = {}
   QuitOn = TRUE
   QuitDeferred = TRUE
   DefCap = 1
@@ -25,4 +27,5 @@ PROPERTY FiredForever
 PROPERTY NeverEarly
 PROPERTY LifeLogged
 PROPERTY CROnce
+PROPERTY DepsFixed
 CHECK_DEADLOCK FALSE
